@@ -21,6 +21,7 @@ import (
 
 	"verif/checks/pj"
 	"verif/engine/core"
+	"verif/ref/poolpoison"
 )
 
 type check struct{}
@@ -136,6 +137,9 @@ func convCaseP(cc *pj.ConvCase, unknown, primed bool) core.Case {
 				var out []byte
 				var cerr error
 				pi := core.Catch(func() { out, cerr = cv.Do(context.Background(), c.In, in) })
+				if pi == nil && cerr == nil && poolpoison.Aliased(out) {
+					add("p2j.Do", "result-aliases-pooled-buffer", "the %d bytes returned by Do change when the buffers in the converters' pool are overwritten\ninput %x", len(out), in)
+				}
 				switch {
 				case pi != nil:
 					classes["panic"] = true
